@@ -11,7 +11,7 @@ PROP = {
             "with the same registration order: K in the worker + K in each of P fresh child processes (quick P=4,K=4; thorough P=8,K=6); "
             "distinct = hash of (texts, config); non-trivial = >= 3 files, >= 6 chunks, samples from >= 1 child process",
     "min_nontrivial": {"quick": 15, "thorough": 200},
-    "max_secs": {"quick": 60, "thorough": 1000},
+    "max_secs": {"quick": 600, "thorough": 1500},
     "require_clauses": ["entry:production", "entry:sorted", "child-processes", "analyses"],
     "assumptions": COMMON_ASSUME + [
         "hash seeds (std RandomState, foldhash) cannot be set, only resampled by creating new analyses and new processes",
